@@ -31,6 +31,7 @@ HOOK_N = 3
 EXT = {"pbf": "osm.pbf", "o5m": "o5m", "xml": "osm", "opl": "opl"}
 
 O5M_ACTIONS = ["Reset", "TypeReset", "Skip", "HeaderDs", "ObjStart", "Str", "ObjEnd", "Finish"]
+O5M_ACTIONS_NOTR = [a for a in O5M_ACTIONS if a != "TypeReset"]
 PBF_ACTIONS = ["Header", "Header2", "BlkOpen", "BlkExtent", "GrpOpen", "AddObj", "GrpClose", "BlkClose", "BlkClose2", "Finish"]
 XML_ACTIONS = ["Style1", "Style2", "Style3", "OpenSec", "CloseSec", "Object", "Finish"]
 OPL_ACTIONS = ["Style1", "Style2", "Extra", "Line", "Finish"]
@@ -55,7 +56,8 @@ MUST_HAVE = [
     "opl esc=upper", "opl esc=wide", "opl line=empty", "opl line=comment", "opl order=rev", "opl omitted v", "opl omitted d",
     "opl omitted T", "opl omitted x", "opl omitted N", "opl omitted M", "opl omit=0",
 ]
-MUST_HAVE_X = ["pbf kind=dense pack=unpacked", "pbf kind=ways pack=split", "pbf xblobs=first", "pbf xblobs=end",
+MUST_HAVE_X = ["o5m mask=n", "o5m mask=w", "o5m mask=r", "o5m mask=nw", "o5m mask=nr", "o5m mask=wr", "o5m mask=nwr",
+               "o5m no reset at a type change","pbf kind=dense pack=unpacked", "pbf kind=ways pack=split", "pbf xblobs=first", "pbf xblobs=end",
                "pbf big size=bmax comp=raw", "pbf big size=bmax comp=zlib", "pbf big size=b16m comp=raw", "pbf big size=b16m comp=zlib",
                "xml kids=interleave", "o5m ds=role250"]
 
@@ -72,6 +74,8 @@ def design(ctx):
             ("PbfChoices", "MCPbfQ.cfg" if quick else "MCPbf.cfg", "pbf: blocks/groups/parameters/string table/dense/Info", PBF_ACTIONS, False),
             ("XmlChoices", "MCXml.cfg", "xml: osm/osmChange, sections, attribute sets, child order", XML_ACTIONS, False),
             ("OplChoices", "MCOpl.cfg", "opl: field sets, empty/comment lines", OPL_ACTIONS, False),
+            ("O5mTable", "MCO5mNoTR.cfg", "o5m: files without type-change resets, decoder that decodes every data set", O5M_ACTIONS_NOTR, False),
+            ("O5mTable", "MCO5mMaskAsShipped.cfg", "o5m as shipped: unwanted data sets skipped undecoded in files without type-change resets (expected: violated)", None, True),
             ("O5mTable", "MCO5mAsShipped.cfg", "o5m as shipped: single strings of 251 characters enter the table (expected: TableAgree violated)", None, True),
             ("XmlChoices", "MCXmlAsShipped.cfg", "xml as shipped: one sub-list per run of children (expected: DecodedOK violated)", None, True)]
     if not quick:
@@ -107,6 +111,7 @@ def export(ctx):
         ("O5mTable", "GenO5m.cfg", n(100, 1000), 400, "o5m simulated choice vectors"),
         ("O5mTable", "GenO5mReset.cfg", None, None, "o5m every placement of <= 2 optional resets (newest-row references)"),
         ("O5mTable", "GenO5mX.cfg", n(12, 100), 400, "o5m role of 250 bytes"),
+        ("O5mTable", "GenO5mNoTR.cfg", n(25, 200), 400, "o5m files without a reset at the change of object type, read with type subsets"),
         ("PbfChoices", "GenPbf.cfg", n(130, 1000), 300, "pbf simulated choice vectors"),
         ("PbfChoices", "GenPbfX.cfg", n(25, 200), 300, "pbf unpacked/split repeated fields, unknown blob types"),
         ("PbfChoices", "GenPbfBig.cfg", 15, 300, "pbf blobs of 16 MiB and 32 MiB - 1"),
@@ -139,7 +144,7 @@ def select(ctx, pool):
     rng = random.Random(ctx.seed)
     uniq = {}
     for c in pool:
-        k = json.dumps([c["fmt"], c["ds"], c.get("variant"), c.get("root"), c["steps"]], sort_keys=True)
+        k = json.dumps([c["fmt"], c["ds"], c.get("variant"), c.get("root"), c.get("mask"), c["steps"]], sort_keys=True)
         uniq.setdefault(k, c)
     pool = list(uniq.values())
     feats = [enc_common.features(c) for c in pool]
@@ -160,7 +165,7 @@ def select(ctx, pool):
                 chosen.add(i)
                 for f in feats[i]:
                     count[f] = count.get(f, 0) + 1
-    budget = {"GenO5mTiny": 200, "GenO5m": 300, "GenPbf": 400, "GenXml": 240, "GenOpl": 300} if quick else {}
+    budget = {"GenO5mTiny": 200, "GenO5m": 300, "GenO5mReset": 350, "GenPbf": 400, "GenXml": 240, "GenOpl": 300} if quick else {}
     per = {}
     for i in order:
         src = pool[i]["src"]
@@ -187,12 +192,15 @@ def table_size(case):
 
 
 def materialise(case, profile, seed, outdir, cid):
-    conc, objs = enc_common.concretize(case, profile, seed)
+    conc, objs, exp = enc_common.concretize(case, profile, seed)
     data, hdr, fmt, plan = enc_common.encode(case, conc, objs, table_size(case))
     path = os.path.join(outdir, "%s.%s" % (cid, EXT[case["fmt"]]))
     with open(path, "wb") as fh:
         fh.write(data)
-    return {"id": cid, "fmt": fmt, "file": path, "exp": objs, "hdr": hdr, "buffer": len(data) < (8 << 20)}, plan, len(data)
+    h = {"id": cid, "fmt": fmt, "file": path, "exp": exp, "hdr": hdr, "buffer": len(data) < (8 << 20)}
+    if "mask" in case:
+        h["mask"] = "".join(t for t in "nwr" if t in case["mask"])
+    return h, plan, len(data)
 
 
 def traits(case, plan, step):
@@ -213,14 +221,24 @@ def traits(case, plan, step):
                 seen250 = False
             elif st["a"] == "obj":
                 hows = ([st["user"]] if "user" in st else []) + list(st.get("roles", [])) + list(st.get("tags", []))
-                roles = [m["role"] for m in case["exp"][st["i"]]["mems"]] if case["exp"][st["i"]]["vis"] else []
+                roles = [m["role"] for m in case["all"][st["i"]]["mems"]] if case["all"][st["i"]]["vis"] else []
                 p = 1 if "user" in st else 0
                 for j, h in enumerate(hows):
                     if h != "inl" and seen250:
                         after = "yes"
                     if h == "inl" and p <= j < p + len(roles) and roles[j - p] == "R250":
                         seen250 = True
-        return "N=%d variant=%s refafter250=%s" % (case.get("N", 0), case["variant"], after)
+        tr, last, fresh = "yes", None, True
+        for st in plan["steps"]:
+            if st["a"] == "reset":
+                fresh = True
+            elif st["a"] == "obj":
+                t = case["all"][st["i"]]["t"]
+                if last is not None and t != last and not fresh:
+                    tr = "no"
+                last, fresh = t, False
+        return "N=%d variant=%s refafter250=%s typeresets=%s mask=%s" % (
+            case.get("N", 0), case["variant"], after, tr, "".join(t for t in "nwr" if t in case.get("mask", "nwr")))
     if fmt == "xml":
         kids = [st["kids"] for st in plan["steps"] if st["a"] == "obj" and st["i"] == step]
         return "root=%s kids=%s" % (plan["root"], kids[0] if kids else "-")
@@ -240,35 +258,42 @@ def outcome(r):
     return re.sub(r"\d+", "#", note)[:80]
 
 
-def run_cases(ctx, items):
-    """items: list of (case, profile).  Encodes, replays, classifies.  Returns number of harness cases."""
+def start_builds(need_hook, need_full):
+    """compile the harness (table hook N=3 / real table) in background threads; returns {full?: future}"""
     flags = ["-DOSMIUM_WITH_LZ4"]
+    ex = ThreadPoolExecutor(max_workers=2)
+    fut = {}
+    if need_hook:
+        fut[False] = ex.submit(vlib.build, name="encodings_replay", src="encodings_replay.cpp",
+                               flags=flags + ["-DOSMIUM_VERIF_O5M_TABLE_SIZE=%d" % HOOK_N])
+    if need_full:
+        fut[True] = ex.submit(vlib.build, name="encodings_replay_full", src="encodings_replay.cpp", flags=flags)
+    ex.shutdown(wait=False)
+    return fut
+
+
+def run_cases(ctx, items, builds=None):
+    """items: list of (case, profile).  Encodes, replays, classifies.  Returns number of harness cases."""
     need_full = any(table_size(c) not in (0, HOOK_N) for c, _ in items)
     need_hook = any(table_size(c) in (0, HOOK_N) for c, _ in items)
     outdir = os.path.join(vlib.BUILD, "c02", "%s_%d" % (ctx.tier, os.getpid()))
     shutil.rmtree(outdir, ignore_errors=True)
     os.makedirs(outdir)
-    builds = []
-    if need_hook:
-        builds.append(dict(name="encodings_replay", src="encodings_replay.cpp", flags=flags + ["-DOSMIUM_VERIF_O5M_TABLE_SIZE=%d" % HOOK_N]))
-    if need_full:
-        builds.append(dict(name="encodings_replay_full", src="encodings_replay.cpp", flags=flags))
-    with ThreadPoolExecutor(max_workers=2) as ex:
-        fut = [ex.submit(vlib.build, **b) for b in builds]
-        hc, meta = [], {}
-        nbytes = 0
-        for n, (case, profile) in enumerate(items):
-            cid = "%s-%d-p%d" % (case["fmt"], n, profile)
-            try:
-                h, plan, size = materialise(case, profile, ctx.seed, outdir, cid)
-            except Exception as exn:        # the independent encoder could not follow the choice vector: machinery failure
-                raise vlib.ModelFailure("encoder failed on %s (%s/%s): %s: %s" % (cid, case["src"], case["ds"], type(exn).__name__, exn))
-            nbytes += size
-            h["full"] = table_size(case) not in (0, HOOK_N)
-            hc.append(h)
-            meta[cid] = (case, profile, plan)
-        bins = [f.result() for f in fut]
-    binary = {False: bins[0] if need_hook else None, True: bins[-1] if need_full else None}
+    if builds is None:
+        builds = start_builds(need_hook, need_full)
+    hc, meta = [], {}
+    nbytes = 0
+    for n, (case, profile) in enumerate(items):
+        cid = "%s-%d-p%d" % (case["fmt"], n, profile)
+        try:
+            h, plan, size = materialise(case, profile, ctx.seed, outdir, cid)
+        except Exception as exn:        # the independent encoder could not follow the choice vector: machinery failure
+            raise vlib.ModelFailure("encoder failed on %s (%s/%s): %s: %s" % (cid, case.get("src"), case["ds"], type(exn).__name__, exn))
+        nbytes += size
+        h["full"] = table_size(case) not in (0, HOOK_N)
+        hc.append(h)
+        meta[cid] = (case, profile, plan)
+    binary = {full: f.result() for full, f in builds.items()}
     res = []
     for full in (False, True):
         part = [h for h in hc if h["full"] == full]
@@ -307,6 +332,8 @@ def run_cases(ctx, items):
 
 def run(ctx):
     t0 = time.time()
+    vlib.repo_tree_hash()
+    builds = start_builds(True, ctx.tier != "quick")          # the cold build overlaps with the TLC runs
     design(ctx)
     vlib.log("[C02] design checks done in %.0fs" % (time.time() - t0))
     pool = export(ctx)
@@ -319,7 +346,7 @@ def run(ctx):
         items.append((c, 0 if big else n % nprof))
         if ctx.tier != "quick" and not big:
             items.append((c, (n + 1 + (n // nprof) % (nprof - 1)) % nprof))
-    n = run_cases(ctx, items)
+    n = run_cases(ctx, items, builds)
     ctx.traces = n
     ctx.evaluations = sum(2 * (len(c["exp"]) + 1) for c, _ in items)
     ctx.nontrivial = len(cases)
